@@ -50,6 +50,14 @@ package httpserver
 // c12_candidate_fix.patch (same directory) is a 30-line change to mux.go with
 // which this check finds nothing (kept for the triage decision, not applied).
 //
+// Near misses: request sequences regularly contain pairs that differ only by
+// something a cache key might normalise away while the matcher does not (host
+// letter case, port, trailing dot, path trailing slash / letter case,
+// percent-encoded path byte, query string, method letter case). Requests carry
+// the raw target; the mux gets what net/http's server would hand it
+// (url.ParseRequestURI). The twin alone decides what is right; a mismatch
+// whose only related history is such a pair is labelled C12.key-collision.
+//
 // Leniency / not generated: no reload during a run (C11's domain); bodies are
 // empty; xForwardedFor off; one of path / pathPrefix / pathRegexp per entry;
 // client IP comes from the transport address (no X-Real-Ip / X-Forwarded-For
@@ -123,6 +131,10 @@ type c12Req struct {
 	IP     string  `json:"ip"`
 	GapUs  int64   `json:"gap_us,omitempty"`
 	Hold   int     `json:"hold,omitempty"` // gates the handler of the cached mux parks at (request stays in flight)
+
+	// Path is the raw request target as sent on the wire (may carry percent
+	// escapes and a query); dec is the decoded path net/http hands to the mux.
+	dec string
 }
 
 type c12Client struct {
@@ -225,6 +237,86 @@ func c12GenPath(rng *sim.Rand, backend string, pIPF, pHdr float64) c12Path {
 	return p
 }
 
+// c12SplitHost splits a Host header value into name and ":port" (or "").
+func c12SplitHost(h string) (string, string) {
+	if i := strings.LastIndexByte(h, ':'); i >= 0 {
+		return h[:i], h[i:]
+	}
+	return h, ""
+}
+
+func c12ToggleCase(s string) string {
+	if s != strings.ToLower(s) {
+		return strings.ToLower(s)
+	}
+	return strings.ToUpper(s)
+}
+
+// c12NearVariant returns a request line that differs from (host, method,
+// target) only by something a cache key might plausibly normalise away: host
+// letter case, port, trailing dot, path trailing slash, path letter case,
+// percent-encoding of a path byte, query string, method letter case.
+func c12NearVariant(rng *sim.Rand, host, method, target string) (string, string, string) {
+	for try := 0; try < 6; try++ {
+		h, m, t := host, method, target
+		name, port := c12SplitHost(h)
+		path, query := t, ""
+		if i := strings.IndexByte(t, '?'); i >= 0 {
+			path, query = t[:i], t[i:]
+		}
+		switch rng.Pick(0, 0, 0, 1, 1, 2, 3, 3, 4, 4, 5, 5, 6, 7, 7, 8) {
+		case 0: // WWW.A.TEST <-> www.a.test
+			name = c12ToggleCase(name)
+		case 1: // A.test <-> a.test
+			if name != "" && name == strings.ToLower(name) {
+				name = strings.ToUpper(name[:1]) + name[1:]
+			} else {
+				name = strings.ToLower(name)
+			}
+		case 2: // other / no port
+			port = rng.PickStr("", ":80", ":8080", ":443")
+		case 3: // trailing dot
+			if strings.HasSuffix(name, ".") {
+				name = strings.TrimSuffix(name, ".")
+			} else {
+				name += "."
+			}
+		case 4: // trailing slash
+			if len(path) > 1 && strings.HasSuffix(path, "/") {
+				path = strings.TrimSuffix(path, "/")
+			} else if !strings.HasSuffix(path, "/") {
+				path += "/"
+			}
+		case 5: // path letter case (escapes stay valid)
+			path = c12ToggleCase(path)
+		case 6: // %78 <-> x
+			switch {
+			case strings.Contains(path, "%78"):
+				path = strings.Replace(path, "%78", "x", 1)
+			case strings.Contains(path, "%79"):
+				path = strings.Replace(path, "%79", "y", 1)
+			case strings.Contains(path, "x"):
+				path = strings.Replace(path, "x", "%78", 1)
+			case strings.Contains(path, "y"):
+				path = strings.Replace(path, "y", "%79", 1)
+			}
+		case 7: // get <-> GET
+			m = c12ToggleCase(m)
+		case 8: // query string
+			if query == "" {
+				query = "?q=1"
+			} else {
+				query = ""
+			}
+		}
+		h, t = name+port, path+query
+		if h != host || m != method || t != target {
+			return h, m, t
+		}
+	}
+	return host, method, target
+}
+
 func c12Gen(rng *sim.Rand, tier string) interface{} {
 	sc := &c12Scenario{Missing: []string{}}
 	sc.CacheSize = rng.Pick(1, 1, 2, 3, 16, 16)
@@ -302,6 +394,7 @@ func c12Gen(rng *sim.Rand, tier string) interface{} {
 	total := rng.Range(4, 28)
 	pRepeat := []float64{0.3, 0.6, 0.8}[rng.Intn(3)]
 	pHold := []float64{0, 0.2, 0.6}[rng.Intn(3)]
+	pNear := []float64{0, 0.15, 0.15, 0.4}[rng.Intn(4)]
 	sc.Clients = make([]c12Client, nc)
 	for i := 0; i < total; i++ {
 		q := c12Req{}
@@ -319,6 +412,13 @@ func c12Gen(rng *sim.Rand, tier string) interface{} {
 				q.Host, q.Method = "a.test", "POST"
 			case e.Host == "a.testP" && e.Method == "UT":
 				q.Host, q.Method = "a.test", "PUT"
+			}
+		case len(all) > 0 && rng.Bool(pNear):
+			// near miss of an earlier request: same after a plausible key normalisation
+			e := all[rng.Intn(len(all))]
+			q.Host, q.Method, q.Path = c12NearVariant(rng, e.Host, e.Method, e.Path)
+			if rng.Bool(0.25) {
+				q.Host, q.Method, q.Path = c12NearVariant(rng, q.Host, q.Method, q.Path)
 			}
 		case len(all) > 0 && rng.Bool(pRepeat):
 			e := all[rng.Intn(len(all))]
@@ -667,7 +767,7 @@ func c12Model(sc *c12Scenario, q *c12Req) c12Why {
 		}
 		for j := range ru.Paths {
 			p := &ru.Paths[j]
-			if !c12PathMatches(p, q.Path) {
+			if !c12PathMatches(p, q.dec) {
 				continue
 			}
 			if !c12MethodMatches(p, q.Method) {
@@ -760,7 +860,11 @@ func c12HTTPReq(q *c12Req, id string) *http.Request {
 		}
 	}
 	h.Set("X-C12-Id", id)
-	return &http.Request{Method: q.Method, URL: &url.URL{Path: q.Path}, Host: q.Host, Header: h, RemoteAddr: q.IP + ":40000",
+	u, err := url.ParseRequestURI(q.Path) // what net/http's server does with the request target
+	if err != nil {
+		u = &url.URL{Path: q.Path}
+	}
+	return &http.Request{Method: q.Method, URL: u, Host: q.Host, Header: h, RemoteAddr: q.IP + ":40000",
 		Body: http.NoBody, Proto: "HTTP/1.1", ProtoMajor: 1, ProtoMinor: 1, RequestURI: q.Path}
 }
 
@@ -770,6 +874,27 @@ func (q *c12Req) String() string {
 		hs = append(hs, kv.K+"="+kv.V)
 	}
 	return fmt.Sprintf("%s %s%s [%s] from %s", q.Method, q.Host, q.Path, strings.Join(hs, ","), q.IP)
+}
+
+// c12Same: the mux legitimately sees the same (host, method, decoded path).
+func c12Same(p, q *c12Req) bool { return p.Host == q.Host && p.Method == q.Method && p.dec == q.dec }
+
+// c12NormKey is the request line after every normalisation a cache key might
+// plausibly (and wrongly) apply.
+func c12NormKey(q *c12Req) string {
+	name, _ := c12SplitHost(q.Host)
+	name = strings.ToLower(strings.TrimSuffix(name, "."))
+	path := strings.ToLower(q.dec)
+	if len(path) > 1 {
+		path = strings.TrimSuffix(path, "/")
+	}
+	return name + " " + strings.ToUpper(q.Method) + " " + path
+}
+
+// c12Alias: different request lines that coincide by plain concatenation or
+// after normalisation - candidates for sharing a wrongly built cache key.
+func c12Alias(p, q *c12Req) bool {
+	return !c12Same(p, q) && (p.Host+p.Method+p.dec == q.Host+q.Method+q.dec || c12NormKey(p) == c12NormKey(q))
 }
 
 type c12Hist struct {
@@ -832,7 +957,7 @@ func c12Classify(sc *c12Scenario, missing map[string]bool, q *c12Req, exp, got c
 		h := &prior[i]
 		p := h.q
 		switch {
-		case p.Host == q.Host && p.Method == q.Method && p.Path == q.Path:
+		case c12Same(p, q):
 			sameTriple++
 			w := h.why
 			if w.Backend != "" && !w.ViaHeader && (w.Status == 0 || (w.Status == 403 && w.Level == "path")) {
@@ -841,7 +966,7 @@ func c12Classify(sc *c12Scenario, missing map[string]bool, q *c12Req, exp, got c
 			if h.exp.Backend == "" && (h.exp.Status == 404 || h.exp.Status == 405) {
 				precStatus[h.exp.Status] = h
 			}
-		case p.Host+p.Method+p.Path == q.Host+q.Method+q.Path:
+		case c12Alias(p, q):
 			sameKey++
 			partner = h
 		}
@@ -894,8 +1019,8 @@ func c12Classify(sc *c12Scenario, missing map[string]bool, q *c12Req, exp, got c
 	}
 	collFacts := ""
 	if partner != nil {
-		collFacts = fmt.Sprintf("earlier request {%v} has a different (host,method,path) but the same concatenation %q; no-cache answer to it was %v",
-			partner.q, q.Host+q.Method+q.Path, partner.exp)
+		collFacts = fmt.Sprintf("earlier request {%v} has a different (host,method,path) but the same concatenation or the same line after normalisation of case/port/trailing dot/trailing slash (%q); no-cache answer to it was %v",
+			partner.q, c12NormKey(q), partner.exp)
 	}
 	switch {
 	case sameKey > 0 && sameTriple == 0:
@@ -995,7 +1120,14 @@ func c12Exec(r *sim.Run, sci interface{}) {
 					return
 				}
 				q := &reqs[qi]
-				if q.Host == "" || q.Method == "" || q.Path == "" || q.IP == "" || strings.HasPrefix(q.Path, "/.well-known/") {
+				if q.Host == "" || q.Method == "" || q.Path == "" || q.IP == "" {
+					continue
+				}
+				q.dec = q.Path
+				if u, err := url.ParseRequestURI(q.Path); err == nil {
+					q.dec = u.Path
+				}
+				if strings.HasPrefix(q.dec, "/.well-known/") {
 					continue
 				}
 				r.Sleep(time.Duration(q.GapUs) * time.Microsecond)
@@ -1037,16 +1169,23 @@ func c12Exec(r *sim.Run, sci interface{}) {
 				prior := hist[:f.prior]
 
 				// probes
-				same, varied, coll := false, false, false
+				same, varied, coll, near, nearDiff := false, false, false, false, false
 				for i := range prior {
 					p := prior[i].q
-					if p.Host == q.Host && p.Method == q.Method && p.Path == q.Path {
+					if c12Same(p, q) {
 						same = true
 						if p.IP != q.IP || fmt.Sprint(p.Hdr) != fmt.Sprint(q.Hdr) {
 							varied = true
 						}
-					} else if p.Host+p.Method+p.Path == q.Host+q.Method+q.Path {
-						coll = true
+					} else if c12Alias(p, q) {
+						if p.Host+p.Method+p.dec == q.Host+q.Method+q.dec {
+							coll = true
+						} else {
+							near = true
+							if prior[i].exp != exp {
+								nearDiff = true
+							}
+						}
 					}
 				}
 				if same {
@@ -1060,6 +1199,12 @@ func c12Exec(r *sim.Run, sci interface{}) {
 				if coll {
 					r.Probe("c12.colliding_concatenation_in_history")
 				}
+				if near {
+					r.Probe("c12.near_variant_in_history")
+				}
+				if nearDiff {
+					r.Probe("c12.near_variant_with_other_nocache_answer")
+				}
 				r.Probe(fmt.Sprintf("c12.nocache_status_%d", exp.Status))
 				if exp.Status == 403 {
 					r.Probe("c12.nocache_403_by_" + why.Level)
@@ -1067,7 +1212,7 @@ func c12Exec(r *sim.Run, sci interface{}) {
 				if why.ViaHeader {
 					r.Probe("c12.decided_by_header_conditioned_path")
 				}
-				if exp.Backend != "" && exp.Path != q.Path {
+				if exp.Backend != "" && exp.Path != q.dec {
 					r.Probe("c12.path_rewritten")
 				}
 				if instC.cache != nil && instC.cache.Len() >= sc.CacheSize && len(hist) > sc.CacheSize {
@@ -1089,7 +1234,7 @@ func c12Exec(r *sim.Run, sci interface{}) {
 				var hs []string
 				for i := range prior {
 					p := prior[i]
-					if p.q.Host+p.q.Method+p.q.Path == q.Host+q.Method+q.Path {
+					if c12Same(p.q, q) || c12Alias(p.q, q) {
 						hs = append(hs, fmt.Sprintf("{%v => nocache %v}", p.q, p.exp))
 					}
 				}
@@ -1125,7 +1270,7 @@ func TestVerifC12(t *testing.T) {
 		MaxSteps: 20000,
 		Rule: "scenario = drawn HTTPServer spec (1-3 rules, host/hostRegexp/any, exact/prefix/regexp/any paths, method lists, header-conditioned entries often followed by their header-less copy, " +
 			"IP filters at server/rule/path level, rewrites, unknown backends) x cacheSize in {1,2,3,16} x 1-4 client tasks sending 4-28 requests over a small alphabet with repeats of earlier (host,method,path) under other headers/IPs " +
-			"and, in a fifth of the runs, host+method pairs whose concatenations coincide; every request is also put to a cacheSize=0 twin of the same spec; " +
+			"and, in a fifth of the runs, host+method pairs whose concatenations coincide, and (in 3 of 4 runs) near-miss variants of earlier requests (host case/port/trailing dot, path slash/case/percent-escape/query, method case); every request is also put to a cacheSize=0 twin of the same spec; " +
 			"non-trivial = at least one request repeated the (host,method,path) of an earlier one with other headers or another client IP (the cache can matter); distinct = distinct (spec, ordered request/answer history)",
 		Real: []string{"pkg/object/httpserver mux (newMux, reload, ServeHTTP, search, route cache on hashicorp ARC)", "pkg/util/ipfilter", "pkg/protocols/httpprot request/response", "pkg/context", "supervisor.NewSpec validation of the generated spec"},
 		Stub: []string{"MuxMapper and backend handlers (harness: record backend and handler-visible path)", "clients (harness tasks with httptest recorders, no sockets)", "sync/atomic of mux.go -> simatomic (same semantics + gates)"},
